@@ -173,7 +173,7 @@ func (m *Machine) run(fr *Frame) Value {
 	var prev *ssa.BasicBlock
 	for {
 		// loop bound
-		if len(block.Preds) > 1 {
+		if len(block.Preds) > 1 && m.initMode == 0 {
 			if fr.visits == nil {
 				fr.visits = map[*ssa.BasicBlock]int{}
 			}
@@ -212,7 +212,7 @@ func (m *Machine) run(fr *Frame) Value {
 		for _, in := range block.Instrs[nphi:] {
 			fr.cur = in
 			m.steps++
-			if m.steps > m.Cfg.MaxSteps {
+			if m.steps > m.Cfg.MaxSteps && m.initMode == 0 {
 				m.Stats.UnwindHits++
 				m.unsupported("UNWIND: step limit %d exceeded", m.Cfg.MaxSteps)
 			}
@@ -312,6 +312,10 @@ func (m *Machine) exec(fr *Frame, in ssa.Instruction) {
 		p := m.get(fr, ins.X).(Ptr)
 		if p.L == nil {
 			m.goPanic("runtime error: invalid memory address or nil pointer dereference")
+		}
+		if p.I == -2 && p.L.Kids != nil {
+			i := m.concretize(p.Idx, 4096)
+			p = Ptr{L: p.L.Kids[i], I: -1}
 		}
 		if p.I != -1 {
 			m.unsupported("field address of compact element")
@@ -896,8 +900,10 @@ func (m *Machine) sliceElem(s Slice, i *sym.Term) Value {
 // elemPtr returns a pointer to element idx of array loc (idx must be in range).
 func (m *Machine) elemPtr(arr *Loc, idx *sym.Term) Ptr {
 	if arr.Kids != nil {
-		i := m.concretize(idx, 4096)
-		return Ptr{L: arr.Kids[i], I: -1}
+		if idx.IsConst() {
+			return Ptr{L: arr.Kids[idx.Int()], I: -1}
+		}
+		return Ptr{L: arr, I: -2, Idx: idx}
 	}
 	if idx.IsConst() {
 		return Ptr{L: arr, I: int(idx.Int())}
